@@ -816,6 +816,13 @@ EGLPNUM_TYPENAME_QSLIB_INTERFACE EGLPNUM_TYPENAME_QSdata *EGLPNUM_TYPENAME_QScop
 	p2->factorok = 0;
 	p2->simplex_display = p->simplex_display;
 	p2->simplex_scaling = p->simplex_scaling;
+	/* the remaining parameters of the QSset_param family */
+	p2->lp->maxiter = p->lp->maxiter;
+	p2->lp->maxtime = p->lp->maxtime;
+	rval = EGLPNUM_TYPENAME_QSset_param_EGlpNum (p2, QS_PARAM_OBJULIM, p->uobjlim);
+	CHECKRVALG (rval, CLEANUP);
+	rval = EGLPNUM_TYPENAME_QSset_param_EGlpNum (p2, QS_PARAM_OBJLLIM, p->lobjlim);
+	CHECKRVALG (rval, CLEANUP);
 	EGLPNUM_TYPENAME_EGlpNumClearVar (p2->pricing->htrigger);
 	*(p2->pricing) = *(p->pricing);
 	/* I added this line because copying the EGLPNUM_TYPENAME_heap (as a pointer) doesn't make any
